@@ -45,6 +45,14 @@ var props = map[string]Prop{}
 
 type fatalExit struct{ code int }
 
+// caseOverride lets Exec replace the printed case line by an augmented one (same case, plus data the
+// model needs, e.g. the text the real formatter produced); Exec must accept the augmented form too.
+// caseTrivial marks the current case as trivial for the distinct_nontrivial count.
+var (
+	caseOverride string
+	caseTrivial  bool
+)
+
 var (
 	statMu sync.Mutex
 	stats  = map[string]int{}
@@ -112,8 +120,16 @@ func main() {
 	out := bufio.NewWriterSize(os.Stdout, 1<<20)
 	defer out.Flush()
 	do := func(c string) {
+		caseOverride, caseTrivial = "", false
 		res, fails := p.Exec(c)
-		fmt.Fprintf(out, "C\t%s\t%s\n", clean(c), clean(res))
+		if caseOverride != "" {
+			c = caseOverride
+		}
+		flag := ""
+		if caseTrivial {
+			flag = "\tt"
+		}
+		fmt.Fprintf(out, "C\t%s\t%s%s\n", clean(c), clean(res), flag)
 		for _, f := range fails {
 			fmt.Fprintf(out, "F\t%s\t%s\t%s\n", clean(f.Sig), clean(c), clean(f.Text))
 		}
